@@ -333,3 +333,32 @@ Definition strict_prog : program -> bool := all_fns strict_fn.
 Definition single_section_prog (names : list string) (p : program) : bool :=
   forallb (fun e => if existsb (String.eqb (fst e)) names then single_section_fn (snd e) else true) p
   && forallb (fun n => existsb (fun e => String.eqb n (fst e)) p) names.
+
+(* ---- channels that connect goroutines: the capacity each is created with (regenerated from every make(chan ...) of
+   the translated packages) against what the design relies on. A RENDEZVOUS channel (capacity 0) is a
+   happens-before edge: "the hub has recorded the client before serveWs starts its readPump" holds only because
+   hub.register is unbuffered; a QUEUE must have room (capacity >= 1, a constant or an expression). Channels that
+   are not listed are not constrained. THE SPECIFICATION, like guard_table. *)
+Inductive chan_cap := CapConst (n : nat) | CapExpr (e : string).
+Inductive chan_req := Rendezvous | Queue | AnyCap.
+
+Definition channel_table : list (string * chan_req) :=
+  [ ("crossbar.Hub.register", Rendezvous);
+    ("crossbar.Hub.unregister", Rendezvous);
+    ("crossbar.Hub.broadcast", Rendezvous);
+    ("crossbar.Client.send", Queue);
+    ("relay.Relay.denied", Queue) ].
+
+Definition cap_ok (r : chan_req) (c : chan_cap) : bool :=
+  match r, c with
+  | Rendezvous, CapConst 0 => true
+  | Rendezvous, _ => false
+  | Queue, CapConst 0 => false
+  | Queue, _ => true
+  | AnyCap, _ => true
+  end.
+
+(* every created channel meets its requirement, and every channel the table constrains is created somewhere *)
+Definition channel_capacities_ok (gen : list (string * chan_cap)) : bool :=
+  forallb (fun e => cap_ok (slookup (fst e) channel_table AnyCap) (snd e)) gen
+  && forallb (fun r => existsb (fun e => String.eqb (fst e) (fst r)) gen) channel_table.
